@@ -58,7 +58,7 @@ ASSUMPTIONS = [
 ]
 TRUSTED = ["modelled rather than verified: extras/outbounds/acl/{compile,matchers}.go, the hijack/default part of extras/outbounds/acl.go and the "
            "net/netip text parsers they call (hand transcription in coq/model/C09_ACL.v)"]
-PER_SHARD = 22
+PER_SHARD = 28
 EXTRA_TARGETS = ["corr/C09_Corr.vo"]
 
 DOMS = ["example.com", "google.co.uk", "a.b.c.org", "localhost", "x.y", "xn.io", "my-site.net", "q.example.com"]
@@ -365,6 +365,191 @@ def fixed_cases():
     return out
 
 
+# ---------------------------------------------------------------- rule files (text)
+
+# unicode.IsSpace (Go's White_Space table) as UTF-8; strings.TrimSpace strips these (valid encodings only) at both ends
+SPACE_CP = list(range(9, 14)) + [0x20, 0x85, 0xA0, 0x1680] + list(range(0x2000, 0x200B)) + [0x2028, 0x2029, 0x202F, 0x205F, 0x3000]
+SPACE_ENC = [chr(c).encode("utf-8") for c in SPACE_CP]
+# the line grammar of acl/parse.go read independently of Go's regexp package and of the Coq model: python's
+# backtracking engine on bytes with the Perl classes of RE2 spelled out (\w = [0-9A-Za-z_], \s = [\t\n\f\r ])
+import re as _re
+LINE_RE = _re.compile(rb"^([0-9A-Za-z_]+)[\t\n\f\r ]*\(([^,]+)(?:,([^,]+))?(?:,([^,]+))?\)\Z")
+
+
+def go_trim(b):
+    again = True
+    while again:
+        again = False
+        for e in SPACE_ENC:
+            if b.startswith(e):
+                b, again = b[len(e):], True
+    again = True
+    while again:
+        again = False
+        for e in SPACE_ENC:
+            if b.endswith(e):
+                b, again = b[:len(b) - len(e)], True
+    return b
+
+
+def ref_parse(text):
+    """(rules [[line, ob, addr, pp, hj]], None) or (None, [line, cleaned line]) by the documentation of parse.go"""
+    rules = []
+    for i, line in enumerate(text.split(b"\n")):
+        j = line.find(b"#")
+        if j >= 0:
+            line = line[:j]
+        line = go_trim(line)
+        if not line:
+            continue
+        m = LINE_RE.match(line)
+        if not m:
+            return None, [i + 1, line]
+        rules.append([i + 1, m.group(1), go_trim(m.group(2)), go_trim(m.group(3) or b""), go_trim(m.group(4) or b"")])
+    return rules, None
+
+
+FW = [b"", b"", b" ", b"\t", b"  ", b"\xc2\xa0", b"\xe3\x80\x80", b" \t", b"\x0b", b"\xe2\x80\x88 ", b"\xc2\x85", b"\x0c"]
+WS1 = [b"", b"", b" ", b"\t", b" \t ", b"\r", b"\x0c", b"  "]
+F_ADDR = [b"1.2.3.4", b"10.0.0.0/8", b"suffix:example.com", b"*.example.com", b"all", b"*", b"2001:db8::/32", b"geoip:cn", b"a(b)c",
+          b"x y", b"\xe4\xbe\x8b\xe3\x81\x88.jp", b"\xf0\x9f\x98\x80", b"\xff\xfe", b"\xa0x", b"x\xe2\x80", b"(", b")", b"))", b"a|b", b"::1", b"\xc2\xa0\xa0"]
+F_PP = [b"tcp", b"udp/53", b"*/*", b"tcp/80-90", b"TCP / 80", b"*", b"\xc2", b"icmp", b"tcp/\xc2\xa080"]
+F_HJ = [b"1.1.1.1", b"::1", b"example.com", b"\xe2\x80\x8bx", b"8.8.8.8 "]
+F_OB = [b"a", b"direct", b"OB_1", b"x9", b"_", b"R2d2", b"reject", b"0"]
+BLANKS = [b"", b"", b"   ", b"\t", b"\xc2\xa0", b"\r", b" \xe3\x80\x80 ", b"\x0b\x0c"]
+COMMENTS = [b"# comment", b"   # a(b)", b"#", b"##", b"\t#x(y", b"# \xe4\xbe\x8b", b" \xc2\xa0# nbsp first", b"#a(b)\r"]
+BAD = [b"a(b,)", b"a(,b)", b"a()", b"a(b,c,d,e)", b"a\x0b(x)", b"(x)", b"a(x) y", b"a x", b"\xc3\xa9(x)", b"a(x", b"ab c(x)", b"a\xc2\xa0(x)",
+       b"a(x)\xc2", b"a(b,,c)", b"a(b, ,c,)", b"a-b(x)", b"a.b(x)", b"a(x),", b"a", b"a(", b")", b"a)x(", b"a(x)\x85", b",", b"a(,)", b"a (  ", b"a(x)(",
+       b"\xef\xbb\xbfa(x)"]
+FUZZ = [b"a", b"b", b"1", b"_", b" ", b"\t", b"(", b")", b",", b"#", b"\r", b"\x0b", b"\xc2\xa0", b"\xe3\x80\x80", b"\xff", b"\xc2", b"x", b"(", b")", b","]
+
+
+def rule_line(rng, ob, fields, comment=True):
+    """one rule line for the given fields (bytes; an empty field is written as white space) with odd white space"""
+    fw = lambda: rng.choice(FW)
+    parts = []
+    for f in fields:
+        a, b = fw(), fw()
+        if not f and not a and not b:
+            a = b" "
+        parts.append(a + f + b)
+    line = rng.choice(FW) + ob + rng.choice(WS1) + b"(" + b",".join(parts) + b")" + rng.choice(FW)
+    if comment and rng.random() < 0.4:
+        line += rng.choice([b"#", b" # c", b"# a(b,c)", b"\t## x", b" # \xe4\xbe\x8b)"])
+    if rng.random() < 0.15:
+        line += b"\r"
+    return line
+
+
+def gen_file(rng):
+    mode = rng.random()
+    lines = []
+    n = rng.randint(0, 10)
+    for _ in range(n):
+        r = rng.random()
+        if mode < 0.8 or r < 0.75:
+            if r < 0.2:
+                lines.append(rng.choice(BLANKS))
+            elif r < 0.35:
+                lines.append(rng.choice(COMMENTS))
+            else:
+                k = rng.choice([1, 1, 2, 2, 3, 3])
+                fs = [rng.choice(F_ADDR), rng.choice(F_PP + [b""]), rng.choice(F_HJ)][:k]
+                if rng.random() < 0.08:
+                    fs[rng.randrange(k)] = b""     # written as white space: a field that trims to nothing
+                lines.append(rule_line(rng, rng.choice(F_OB), fs))
+        else:
+            lines.append(b"".join(rng.choice(FUZZ) for _ in range(rng.randint(0, 12))))
+    if 0.55 <= mode < 0.8 and lines:
+        lines[rng.randrange(len(lines))] = rng.choice(FW) + rng.choice(BAD) + rng.choice([b"", b"", b" # why", b"\r"])
+    text = b"\n".join(lines)
+    if rng.random() < 0.5:
+        text += b"\n"
+    rules, err = ref_parse(text)
+    c = {"k": "file", "text": text.hex()}
+    if err is None:
+        c["want"] = [[r[0]] + [x.hex() for x in r[1:]] for r in rules]
+    else:
+        c["wanterr"] = [err[0]]
+    return c
+
+
+def eng_text(rng, rules):
+    """the rule file of an engine case: the rules (ASCII fields) in order, between blank and comment lines, with odd
+    white space; returns (text, line number of every rule)"""
+    lines, nums = [], []
+    for r in rules:
+        for _ in range(rng.choice([0, 0, 0, 1, 1, 2])):
+            lines.append(rng.choice(BLANKS + COMMENTS))
+        fs = [r["addr"].encode()]
+        if r["pp"] or r["hj"]:
+            fs.append(r["pp"].encode())
+        if r["hj"]:
+            fs.append(r["hj"].encode())
+        lines.append(rule_line(rng, r["ob"].encode(), fs))
+        nums.append(len(lines))
+    for _ in range(rng.choice([0, 0, 1])):
+        lines.append(rng.choice(BLANKS + COMMENTS))
+    text = b"\n".join(lines) + (b"\n" if rng.random() < 0.6 else b"")
+    return text, nums
+
+
+# ---------------------------------------------------------------- net.IP.String
+
+GVALS = [1, 0x10, 0x100, 0x1000, 0xffff, 0xa0b, 0xf, 0xabcd, 0x8000, 0x00ff, 0x0100, 0xfffe]
+
+
+def groups_bytes(g):
+    return b"".join(bytes([x >> 8, x & 255]) for x in g)
+
+
+def gen_ipstr(rng, which):
+    addrs = []
+    if which == 0:
+        # every placement of zero groups: all 256 zero/non-zero patterns of the eight groups
+        for mask in range(256):
+            addrs.append(groups_bytes([0 if mask >> i & 1 else rng.choice(GVALS + [rng.randrange(1, 65536)]) for i in range(8)]))
+    elif which == 1:
+        # dotted decimal: digit-count boundaries in every octet; 4-byte and v4-mapped forms; near misses of the mapping
+        octs = [0, 1, 9, 10, 11, 99, 100, 101, 199, 200, 249, 250, 255]
+        for _ in range(60):
+            b = bytes(rng.choice(octs + [rng.randrange(256)]) for _ in range(4))
+            addrs += [b, MAPPED + b]
+            if rng.random() < 0.5:
+                addrs.append(rng.choice([MAPPED[:11] + b"\xfe", MAPPED[:10] + b"\x00\xff", MAPPED[:10] + b"\xff\x00", b"\x00" * 12,
+                                         b"\x00" * 9 + b"\x01\xff\xff", b"\x00" * 11 + b"\x01"]) + b)
+        addrs += [bytes(16), bytes(15) + b"\x01", b"\x01" + bytes(15), b"\xff" * 16, bytes(4), b"\xff" * 4, MAPPED + bytes(4), MAPPED + b"\xff" * 4,
+                  bytes(10) + b"\xff\xff" + bytes(4), bytes(8) + b"\x00\x01" + bytes(6)]
+    elif which == 2:
+        # lengths that are neither 0, 4 nor 16, and nil
+        addrs.append(b"")
+        for n in [1, 2, 3, 5, 6, 8, 12, 15, 17, 20, 32]:
+            for _ in range(3):
+                addrs.append(bytes(rng.choice([0, 0x0f, 0xf0, 0xff, 0x7c, rng.randrange(256)]) for _ in range(n)))
+    else:
+        for _ in range(150):
+            g = [rng.choice([0, 0, 0, rng.choice(GVALS), rng.randrange(65536)]) for _ in range(8)]
+            addrs.append(groups_bytes(g))
+    names = ["", "example.com", "a|b", "|", "EXAMPLE.com.", "x", "1.2.3.4", "\u4f8b\u3048.jp"]
+    hosts = []
+    for _ in range(12):
+        a4 = rng.choice(addrs + [b""])
+        a6 = rng.choice(addrs + [b""])
+        hosts.append({"n": rng.choice(names), "v4": a4.hex(), "v6": a6.hex()})
+    return {"k": "ipstr", "addrs": [a.hex() for a in addrs], "hosts": hosts}
+
+
+def check_name_assumption(c):
+    """(d) the grammar clause of the property: ASCII rule fields and host names, no xn-- label in a queried name; the Go
+    harness asserts the same (and that idna.ToUnicode is the identity on the names) on every case"""
+    for r in c.get("rules", []):
+        for k in ("ob", "addr", "pp", "hj"):
+            assert r[k].isascii(), ("generator left the ASCII grammar", r)
+    for h in c.get("hosts", []):
+        assert h["n"].isascii(), ("generator left the ASCII grammar", h)
+        assert not any(l.startswith("xn--") for l in h["n"].lower().rstrip(".").split(".")), ("punycode label generated", h)
+
+
 def gen(rng, tier):
     scale = 1 if tier == "quick" else 12
     cases = fixed_cases()
@@ -372,6 +557,16 @@ def gen(rng, tier):
         cases.append(gen_one(rng, "acl", tier))
     for _ in range(50 * scale):
         cases.append(gen_one(rng, "eng", tier))
+    for c in cases:
+        check_name_assumption(c)
+        if c["k"] == "eng":
+            text, nums = eng_text(rng, c["rules"])
+            c["text"], c["lines"] = text.hex(), nums
+    for _ in range(70 * scale):
+        cases.append(gen_file(rng))
+    for which in range(4):
+        for _ in range(1 if which < 3 or tier == "quick" else 6):
+            cases.append(gen_ipstr(rng, which))
     return cases
 
 
@@ -379,8 +574,27 @@ def cb(s):
     return common.coq_bytes(s if isinstance(s, (bytes, bytearray)) else s.encode("latin-1"))
 
 
+def tr(fields):
+    return "mkTRule %s %s %s %s" % tuple(cb(bytes.fromhex(x)) for x in fields)
+
+
 def to_coq(c, o):
-    if o.get("panic") or ("cerr" not in o):
+    if o.get("panic"):
+        return None
+    if c["k"] == "file":
+        text = cb(bytes.fromhex(c["text"]))
+        if "rules" in o:
+            return "CFile %s (Some [%s]) 0%%nat []" % (text, ";".join("(%d%%nat, %s)" % (r[0], tr(r[1:])) for r in o["rules"]))
+        if "perr" in o:
+            return "CFile %s None %d%%nat %s" % (text, o["perr"][0], cb(bytes.fromhex(o["perr"][1])))
+        return None
+    if c["k"] == "ipstr":
+        if "strs" not in o or "hstrs" not in o:
+            return None
+        hosts = "[" + ";".join("mkHost %s %s %s" % (cb(h["n"].encode("utf-8")), cb(bytes.fromhex(h["v4"])), cb(bytes.fromhex(h["v6"]))) for h in c["hosts"]) + "]"
+        return "CIpStr [%s] [%s] %s [%s]" % (";".join(cb(bytes.fromhex(a)) for a in c["addrs"]), ";".join(cb(bytes.fromhex(x)) for x in o["strs"]),
+                                             hosts, ";".join(cb(bytes.fromhex(x)) for x in o["hstrs"]))
+    if "cerr" not in o:
         return None
     rules = "[" + ";".join("mkTRule %s %s %s %s" % (cb(r["ob"]), cb(r["addr"]), cb(r["pp"]), cb(r["hj"])) for r in c["rules"]) + "]"
     hosts = "[" + ";".join("mkHost %s %s %s" % (cb(h["n"]), cb(bytes.fromhex(h["v4"])), cb(bytes.fromhex(h["v6"]))) for h in c["hosts"]) + "]"
@@ -404,12 +618,19 @@ def to_coq(c, o):
     pl = "[" + ";".join(pool) + "]"
     if c["k"] == "acl":
         return "CAcl %s %s (%d)%%Z %s %s %s %s" % (obs, rules, c["cache"], hosts, qs, pl, exp)
+    if o.get("text"):
+        # the engine was built from this TEXT: the model parses it too (ParseTextRules ; Compile)
+        return "CEngT %s %s %s %s %s %s" % (obs, cb(bytes.fromhex(o["text"])), hosts, qs, pl, exp)
     return "CEng %s %s %s %s %s %s" % (obs, rules, hosts, qs, pl, exp)
 
 
 def klass(c, o):
     if o.get("panic"):
         return c["k"] + ":panic"
+    if c["k"] == "file":
+        return "file:" + ("syntax-error" if "perr" in o else "rules=%d" % min(len(o.get("rules", [])), 4))
+    if c["k"] == "ipstr":
+        return "ipstr"
     if o.get("cerr"):
         return c["k"] + ":compile-error"
     if "ans" not in o:
@@ -421,6 +642,10 @@ def klass(c, o):
 
 
 def nontrivial(c, o):
+    if c["k"] == "file":
+        return len(o.get("rules", [])) >= 2 or ("perr" in o and o["perr"][0] > 1)
+    if c["k"] == "ipstr":
+        return len(o.get("strs", [])) > 10
     if o.get("cerr") or "ans" not in o:
         return False
     distinct = len(set(tuple(q) for q in c["qs"]))
@@ -442,7 +667,7 @@ def fingerprint(c, o):
         return "acl-documented-rule-rejected"
     if "assumption" in why:
         return "acl-ip-string-assumption"
-    if "ParseTextRules" in why:
+    if "ParseTextRules" in why or c.get("k") == "file":
         return "acl-line-parser"
     if "rewritten inconsistently" in why:
         return "acl-engine-rewrite"
